@@ -64,16 +64,23 @@ def run(c):
                 c.violation(case_replay(c, {'tree': tree, 'events': events, 'dm': 'null', 'late': False, 'origin': 'witness:' + name},
                                         {'kind': 'defect-switch', 'switch': name}))
     seen = set()
-    for eng, i, cf in sorted(bad, key=lambda b: (len(G.sx_tree(cases[b[1]]['tree'])), len(cases[b[1]]['events']))):
-        if eng in seen:
-            continue
-        seen.add(eng)
-        f = c.match_known({'engine': eng, 'class': 'illegal-configuration'})
+    by_class = {}
+    for eng, i, cf in bad:
+        # an illegal configuration the engine's Coq model predicts, in a chart with overlapping histories
+        follows_model = corr_equal(res[eng][i], res['model' if eng == 'large' else 'model_fast'][i])[0]
+        cls = 'illegal-configuration'
+        if follows_model and history_overlap(res['spec'][i]):
+            cls = 'illegal-configuration:history-overlap'
+        by_class.setdefault((eng, cls), []).append((i, cf))
+    c.cov['illegal_by_class'] = {'%s/%s' % k: len(v) for k, v in by_class.items()}
+    for (eng, cls), lst in sorted(by_class.items()):
+        f = c.match_known({'class': cls})
         if f:
-            c.known(f['id'], f['what'])
+            c.known(f['id'], f['what'] + ' (%s engine, %d configurations this run)' % (eng, len(lst)))
             continue
-        c.violation(case_replay(c, cases[i], {'kind': 'oracle', 'engine': eng, 'illegal_configuration': cf,
-                                              'count': sum(1 for b in bad if b[0] == eng), 'trace': res[eng][i][:1500]}))
+        i, cf = sorted(lst, key=lambda b: (len(G.sx_tree(cases[b[0]]['tree'])), len(cases[b[0]]['events'])))[0]
+        c.violation(case_replay(c, cases[i], {'kind': 'oracle', 'engine': eng, 'class': cls, 'illegal_configuration': cf,
+                                              'count': len(lst), 'trace': res[eng][i][:1500]}))
     for eng, i in rootbad[:1]:
         c.violation(case_replay(c, cases[i], {'kind': 'oracle', 'engine': eng, 'what': 'the <scxml> root is not entered exactly once / is exited',
                                               'trace': res[eng][i][:1500]}))
